@@ -2,6 +2,7 @@
 # soak.sh [tier] [seeds...]: runs every registered check in the given tier for the given VERIF_SEED values and
 # prints one line per run (used for long unattended runs, e.g. through `vp run`).
 cd "$(dirname "$0")/.."
+export VERIF_REPO=${VERIF_REPO:-${VP_RUN_REPO:-/repo}}
 TIER=${1:-quick}; shift || true
 SEEDS=${*:-1}
 ./setup.sh >/dev/null 2>&1 || echo "setup failed"
